@@ -11,7 +11,7 @@
      * integer division by zero answers DivZero;
      * float comparisons whose operands the model does not carry are answers of an oracle.
    Definitions only (proofs: Proofs/KernelsP.v). *)
-From Coq Require Import ZArith List Bool.
+From Coq Require Import ZArith List Bool QArith.
 From Verif Require Import Py PyExt PyValid S_validators.
 Import ListNotations.
 Open Scope Z_scope.
@@ -413,15 +413,30 @@ End MatchArrays.
          if n_current_slices * log(n_current_slices / max(n_pairs, 1)) > n_matches + n_pairs: break
          starts, stops, n_matches = _get_mask_pairs(starts, stops, coords[i], indices[i])
          i += 1
-   The float comparison is an oracle (a function of the loop counter).  _get_mask_pairs:
+   The float comparison is the GENERATED expression sv_cm_break read over exact rationals with an abstract
+   logarithm lg (the theorems need only: lg x >= 1 for x >= 3, which ln satisfies).  _get_mask_pairs:
      for j in range(len(starts_old)):
          for p_match in range(idx[0], idx[1], idx[2]):
              start = searchsorted(c[starts_old[j]:stops_old[j]], p_match, 'left') + starts_old[j]
              stop  = searchsorted(c[starts_old[j]:stops_old[j]], p_match, 'right') + starts_old[j]
              if start != stop: starts.append(start); stops.append(stop); n_matches += stop - start *)
+(* exact rationals with an abstract logarithm: the carrier on which the extracted float test is read *)
+Definition qops (lg : Q -> Q) : fops :=
+  {| ft := Q; f_of_Z := inject_Z; f_mul := Qmult; f_div := Qdiv; f_add := Qplus;
+     f_max := fun a b => if Qle_bool a b then b else a;
+     f_log := lg; f_gt := fun a b => negb (Qle_bool a b) |}.
+
+(* the GENERATED cost test of _compute_mask (Gen/S_validators.v: sv_cm_n_current_slices, sv_cm_break):
+   rlen = len(range(i0, i1, i2 of indices[i])), n_pairs = len(starts), n_matches as carried by the loop *)
+Definition cm_break (lg : Q -> Q) (rlen n_pairs n_matches : Z) : bool :=
+  match sv_cm_n_current_slices (VInt rlen) (VInt n_pairs) with
+  | Ok (VInt ncs) => sv_cm_break (qops lg) (inject_Z ncs) (inject_Z n_pairs) (inject_Z n_matches)
+  | _ => true
+  end.
+
 Section ComputeMask.
   Variable F : nat.
-  Variable guess_break : nat -> bool.
+  Variable lg : Q -> Q.
 
   Fixpoint gmp_matches (c : list Z) (lo hi : Z) (ps : list Z) (acc : list (Z * Z)) : kres (list (Z * Z)) :=
     match ps with
@@ -439,22 +454,30 @@ Section ComputeMask.
     | (lo, hi) :: r => acc' <~ gmp_matches c lo hi ps acc ;; get_mask_pairs r c ps acc'
     end.
 
-  (* coords: one list per axis; ranges: range(i0, i1, i2 of indices[i]) per axis, already expanded *)
+  (* n_matches += stop - start for every appended pair *)
+  Definition pairs_total (pairs : list (Z * Z)) : Z := fold_right (fun p t => (snd p - fst p) + t) 0 pairs.
+
+  (* coords: one list per axis; ranges: range(i0, i1, i2 of indices[i]) per axis, already expanded.
+     Returns the index of the first axis not narrowed, the pairs, and the log of the narrowing steps
+     actually executed: (len(range), n_pairs, n_matches) at the time of each cost test that said "go on";
+     the step then performs len(range) * n_pairs pairs of binary searches. *)
   Fixpoint cm_loop (fuel : nat) (i : nat) (coords : list (list Z)) (ranges : list (list Z))
-           (pairs : list (Z * Z)) : kres (nat * list (Z * Z)) :=
+           (pairs : list (Z * Z)) (n_matches : Z) (log : list (Z * Z * Z))
+    : kres (nat * list (Z * Z) * list (Z * Z * Z)) :=
     match fuel with
     | O => OutOfFuel
     | S f =>
       match coords, ranges with
       | c :: coords', ps :: ranges' =>
-        if guess_break i then Done (i, pairs)
-        else pairs' <~ get_mask_pairs pairs c ps [] ;; cm_loop f (S i) coords' ranges' pairs'
-      | _, _ => Done (i, pairs)
+        if cm_break lg (zlen ps) (zlen pairs) n_matches then Done (i, pairs, log)
+        else pairs' <~ get_mask_pairs pairs c ps [] ;;
+             cm_loop f (S i) coords' ranges' pairs' (pairs_total pairs') (log ++ [(zlen ps, zlen pairs, n_matches)])
+      | _, _ => Done (i, pairs, log)
       end
     end.
 
-  Definition compute_mask_narrow (nnz : Z) (coords ranges : list (list Z)) : kres (nat * list (Z * Z)) :=
-    cm_loop F 0 coords ranges [(0, nnz)].
+  Definition compute_mask_narrow (nnz : Z) (coords ranges : list (list Z)) : kres (nat * list (Z * Z) * list (Z * Z * Z)) :=
+    cm_loop F 0 coords ranges [(0, nnz)] nnz [].
 End ComputeMask.
 
 (* ================================================================= _utils.algA
